@@ -3,6 +3,7 @@
 From SV Require Import Model.Base Model.LeapArray Model.World Spec.WorldSpec Spec.C05Spec
   Proofs.WorldProofs Proofs.C05Proofs.
 From SV Require Import Model.Hotspot Spec.C05hSpec Proofs.C05hProofs.
+From SV Require Import Model.F64 Model.Throttle Spec.C07Spec Spec.MultiSpec Proofs.C07Proofs Proofs.MultiProofs.
 Open Scope N_scope.
 
 (** For every set of isolation rules on any resources and every history of builds (any batch),
@@ -45,6 +46,13 @@ Theorem C05_hotspot_cap : forall r base ops v,
   h_kind r = HConc -> thresholds_pos r = true ->
   count_open r v (open_after [] ops (hrun (mkHW base [hctl0 r] []) ops)) <= thr_of r v.
 Proof. exact c05h_cap. Qed.
+
+(** Several concurrency rules on one resource (checked in order, the first that is full blocks;
+    an entry rejected by a later rule takes no place in an earlier one): the same statement. *)
+Theorem C05_hotspot_exact_multi : forall rs base ops,
+  Forall (fun r => h_kind r = HConc /\ thresholds_pos r = true) rs ->
+  ok_c05h_multi rs [] ops (hrun (mkHW base (map hctl0 rs) []) ops) = true.
+Proof. exact c05h_multi_holds. Qed.
 
 Example C05_hotspot_example :
   let r := mkHR 1 HConc 2 0 0 0 0 0 [(9, 1)] in
